@@ -172,8 +172,18 @@ def run(chk, facts):
                         misuse.append(par["m"])
                     cur = par
                     continue
-                if par.get("k") == "mcall" and key == "args" and par["m"] in ("chain", "extend", "append"):
-                    misuse.append(f"imports() is the argument of {par['m']}: it no longer comes first")
+                if par.get("k") == "mcall" and key == "args":
+                    # handed to a method as an argument: the imports land wherever that method puts them - behind what the receiver already
+                    # holds (chain, extend, append) or at a computed place (splice, insert, extend_from_slice ..) - unless the receiver is a
+                    # vector that was just created empty
+                    recv_ = strip(par["recv"])
+                    fresh = False
+                    if recv_.get("k") == "path":
+                        inits_ = [n for n in walk(ga["body"]) if n.get("k") == "local" and n.get("init") is not None and [x["name"] for x in walk(n["pat"]) if x.get("k") == "pident"] == [recv_["p"]]]
+                        earlier = [n for n in walk(ga["body"]) if n.get("k") == "mcall" and src(strip(n["recv"])) == recv_["p"] and n is not par and n.get("ln", 0) < par.get("ln", 0)]
+                        fresh = len(inits_) == 1 and src(strip(inits_[0]["init"]), -30).replace(" ", "") in ("Vec::new()", "::alloc::vec::Vec::new()", "vec![]") and not earlier
+                    if not (fresh and par["m"] in ("extend", "append")):
+                        misuse.append(f"imports() is an argument of .{par['m']}(..): it no longer comes first")
                 if par.get("k") == "local":
                     # bound to a local: what is applied to that local later?
                     nm = [x["name"] for x in walk(par["pat"]) if x.get("k") == "pident"]
@@ -183,6 +193,16 @@ def run(chk, facts):
                         if n.get("k") == "mcall" and n["m"] in ("chain", "extend", "append") and n["args"] and src(strip(n["args"][0])) in nm:
                             misuse.append(f"the imports are the argument of {n['m']}: they no longer come first")
                 break
+        # .. and imports() itself returns everything that was registered: nothing in it (or in a private helper it calls) drops or re-orders
+        try:
+            imf = syn.one_fn("imports", impl_of="Imports")
+            from .common import local_helpers as _lh
+            for f_ in [imf] + _lh(syn, imf):
+                for n in walk(f_["body"]):
+                    if n.get("k") == "mcall" and n["m"] in BAD:
+                        misuse.append(f"Imports::imports applies .{n['m']}(..) to the registered imports")
+        except AnchorError as e_:
+            misuse.append(str(e_))
         ok1 = len(imp_calls) >= 1 and not misuse
         chk.ob("R-C16-2", "gen_arguments:block", ok1, "the module's statements start with imports(), unfiltered" if ok1 else
                f"gen_arguments no longer puts the unfiltered imports() in front of the module's statements ({misuse[:2] or 'imports() is not used'}): "
